@@ -111,8 +111,38 @@ type ValObject struct {
 	tag string
 }
 
-// fixtureDepths: 1..3 embedding levels, 4 = a derived type that also is an error, 5 = a derived type registered by value
-const fixtureDepths = 5
+// Derived types registered by value whose struct cannot be compared with == (a slice / a map among the fields).
+type SliceRow struct {
+	at.List
+	cells []string
+}
+
+type MapRec struct {
+	at.Object
+	attrs map[string]int
+}
+
+// fixtureDepths: 1..3 embedding levels, 4 = a derived type that also is an error, 5 = a derived type registered by value,
+// 6 = registered by value and not comparable
+const fixtureDepths = 6
+
+// sameValue: identity of two values as far as Go defines one - == where the dynamic type allows it; for the two
+// non-comparable fixture types the embedded container and the backing storage of their slice / map.
+func sameValue(a, b any) bool {
+	switch x := a.(type) {
+	case SliceRow:
+		y, ok := b.(SliceRow)
+		return ok && x.List == y.List && len(x.cells) == len(y.cells) && (len(x.cells) == 0 || &x.cells[0] == &y.cells[0])
+	case MapRec:
+		y, ok := b.(MapRec)
+		return ok && x.Object == y.Object && reflect.ValueOf(x.attrs).Pointer() == reflect.ValueOf(y.attrs).Pointer()
+	}
+	switch b.(type) {
+	case SliceRow, MapRec:
+		return false
+	}
+	return a == b
+}
 
 // fixture: outer = the registered derived value, inner = the embedded library container, mids = intermediate levels.
 type fixture struct {
@@ -132,6 +162,10 @@ func listFixture(depth int, vals ...any) fixture {
 		d := ValList{List: at.NewList(vals...), tag: "by value"}
 		d.Init(d)
 		return fixture{"ValList (registered by value)", d, d.List, nil}
+	case 6:
+		d := SliceRow{List: at.NewList(vals...), cells: []string{"not", "comparable"}}
+		d.Init(d)
+		return fixture{"SliceRow (registered by value, not comparable)", d, d.List, nil}
 	case 1:
 		d := NewDList(vals...)
 		return fixture{"DList", d, d.List, nil}
@@ -154,6 +188,10 @@ func objectFixture(depth int, vals ...any) fixture {
 		d := ValObject{Object: at.NewObject(vals...), tag: "by value"}
 		d.Init(d)
 		return fixture{"ValObject (registered by value)", d, d.Object, nil}
+	case 6:
+		d := MapRec{Object: at.NewObject(vals...), attrs: map[string]int{"not": 1}}
+		d.Init(d)
+		return fixture{"MapRec (registered by value, not comparable)", d, d.Object, nil}
 	case 1:
 		d := NewDObject(vals...)
 		return fixture{"DObject", d, d.Object, nil}
@@ -477,6 +515,24 @@ func runC19(c *fw.Ctx) {
 				c19Judge(c, po, "UnsetTF(.l)", pobj.UnsetTF(".l"), inO)
 			})
 		}
+		// another value of the receiver's own type is a list like any other: storing it neither panics nor loses the type
+		stepMust := func(name string, f func() at.List) {
+			in := func() string { return fmt.Sprintf("%s(%d elements) chain step %s", fx.name, size, name) }
+			guard(c, in, func() {
+				var res at.List
+				if p, msg := drive.Protect(func() { res = f() }); p {
+					c.Violate("fluent-method-panics:"+strings.SplitN(name, "(", 2)[0], in(), "the registered outer value (the argument is a valid list value)", "panic: "+msg)
+					return
+				}
+				c.Count("method_calls")
+				c.Distinct(in())
+				c19Judge(c, fx, name, res, in)
+			})
+		}
+		stepMust("Add(a value of its own type)", func() at.List { return l.Add(listFixture(depth, 1).outer) })
+		stepMust("Insert(a value of its own type)", func() at.List { return l.Insert(0, listFixture(depth, 2).outer) })
+		stepMust("Replace(a value of its own type)", func() at.List { return l.Replace(0, listFixture(depth, 3).outer) })
+		stepMust("SetTF(a value of its own type)", func() at.List { return l.SetTF("#1", listFixture(depth, 4).outer) })
 		step("Insert(at end)", func() at.List { return l.Insert(l.Count(), 1) })
 		step("Insert(at 0)", func() at.List { return l.Insert(0, 1) })
 		step("SetTF(leaf replace)", func() at.List { return l.SetTF("#0", 5) })
@@ -597,7 +653,7 @@ func runC19(c *fw.Ctx) {
 			same := func(path string, got any) {
 				c.Count("retrievals")
 				c.SetAdd("retrieval_paths", path)
-				if got != fx.outer {
+				if !sameValue(got, fx.outer) {
 					what := fmt.Sprintf("%T", got)
 					if got == fx.inner {
 						what += " (the embedded library container)"
@@ -898,13 +954,13 @@ func showArgs(args []reflect.Value) string {
 func c19Judge(c *fw.Ctx, fx fixture, method string, res any, in func() string) {
 	describe := func() string {
 		switch {
-		case res == fx.inner:
+		case sameValue(res, fx.inner):
 			return "the embedded library container (the derived type is lost)"
-		case res == fx.outer:
+		case sameValue(res, fx.outer):
 			return "the outer value"
 		}
 		for i, m := range fx.mids {
-			if res == m {
+			if sameValue(res, m) {
 				return fmt.Sprintf("the intermediate embedding level %d (%T)", i+1, m)
 			}
 		}
@@ -912,7 +968,7 @@ func c19Judge(c *fw.Ctx, fx fixture, method string, res any, in func() string) {
 	}
 	if isFluent(method) || strings.Contains(method, "(") || strings.Contains(method, ".") {
 		c.SetAdd("fluent_methods_checked", strings.SplitN(method, "(", 2)[0])
-		if res != fx.outer {
+		if !sameValue(res, fx.outer) {
 			c.Violate("fluent-method-loses-derived-type:"+strings.SplitN(method, "(", 2)[0], in(), "the registered outer value", describe())
 		}
 		return
